@@ -151,6 +151,16 @@ def case_entry(case):
         k = "standard_wrong_dimension" if isinstance(q, pint.DimensionalityError) else "standard_unreadable"
         raise Violation(f"{k}:{name}", f"Q(1,{sp!r}).to({row['target']!r}): {type(q).__name__}: {q}")
     _cmp(nit, q.magnitude, want, kind, row["tol"], f"Q(1,{sp!r}).to({row['target']!r})")
+    if nit == "float":
+        # the standard value does not depend on the number type of the magnitude one happens to hold: exact rationals and decimals in the
+        # default (float) registry are converted with the same factor, to float accuracy
+        from decimal import Decimal as _D
+
+        for mag, tag in ((Fraction(1), "Fraction(1)"), (_D(1), "Decimal(1)")):
+            s_, qm = attempt(_to, ureg, mag, sp, row["target"])
+            if s_ == "err":
+                raise Violation(f"standard_unreadable:{name}:{tag}", f"Q({tag},{sp!r}).to({row['target']!r}): {type(qm).__name__}: {qm}")
+            _cmp("float", float(qm.magnitude), want, kind if kind != "exact" else "exact", row["tol"], f"Q({tag},{sp!r}).to({row['target']!r})")
     # the same factor through the base-unit machinery of the default (SI/mks) system; asked for every spelling and on
     # both passes over the table, so a factor cached under a wrong key shows up
     for other in ("imperial", "cgs"):
